@@ -197,7 +197,7 @@ def homogeneous(spec, case, lam, planestrain=False):
     def brentq(f, lo, hi, a0=1.0, **kw):
         # the physically relevant root is the one next to the isochoric guess a0: scan a
         # grid around a0 and take the sign change closest to it
-        grid = a0 * np.exp(np.linspace(np.log(0.3), np.log(3.0), 241))
+        grid = a0 * np.exp(np.linspace(np.log(0.04), np.log(5.0), 481))
         vals = np.array([f(x) for x in grid])
         idx = [k for k in range(len(grid) - 1) if np.isfinite(vals[k]) and np.isfinite(vals[k + 1]) and vals[k] * vals[k + 1] <= 0]
         if not idx:
